@@ -226,10 +226,40 @@ func run(rp *explore.Report, tier string) {
 			}
 		}
 	}
+	// values that share storage: new is a reslice / an in-place extension of old's array (and the other way round),
+	// at the top level, under a field, and as an element of an outer array; same-length aliases must still diff to nil
+	for _, v := range V {
+		arr, ok := v.([]interface{})
+		if !ok || len(arr) == 0 {
+			continue
+		}
+		for cut := 0; cut <= len(arr); cut++ {
+			k++
+			if !rp.Mine(k) {
+				continue
+			}
+			base := append(make([]interface{}, 0, len(arr)+2), clone(arr).([]interface{})...)
+			short := base[:cut]
+			longer := append(base, "extra") // extends into base's spare capacity: same storage
+			wraps := []func(x interface{}) interface{}{
+				func(x interface{}) interface{} { return x },
+				func(x interface{}) interface{} { return map[string]interface{}{"f": x, "g": 1.0} },
+				func(x interface{}) interface{} { return []interface{}{x, "tail"} },
+			}
+			for _, wr := range wraps {
+				for _, pr := range [][2]interface{}{{base, short}, {short, base}, {base, longer}, {longer, base}, {base, base[:len(base)]}} {
+					rp.Cases++
+					if checkPair(rp, wr(pr[0]), wr(pr[1])) {
+						rp.Nontrivial++
+					}
+				}
+			}
+		}
+	}
 	rp.AddOutcome(fmt.Sprintf("|V|=%d", len(V)))
 }
 
 func init() {
 	reg.Register(&reg.Harness{Property: "C03", Name: "c03/roundtrip", Level: "exploration", Run: run,
-		Rule: "all ordered pairs (old,new) over a generated alphabet V of JSON values (scalars, arrays with duplicates, objects over field names {a,b,$,0,f,g}, __key objects, arrays of keyed objects up to length 3-4, nested arrays/objects, fields appearing with complex values); oracle: Diff nil => stripped values equal, else Go merge.Merge and an independent implementation of the documented client format applied to StripKey(old) with the JSON-decoded delta give StripKey(new); Diff(x,x)=nil; arguments unmodified; delta JSON-stable. non-trivial = pairs with a non-empty delta"})
+		Rule: "all ordered pairs (old,new) over a generated alphabet V of JSON values (scalars, arrays with duplicates, objects over field names {a,b,$,0,f,g}, __key objects, arrays of keyed objects up to length 3-4, nested arrays/objects, fields appearing with complex values), plus for every array value the pairs in which new shares old's backing storage (reslice to every shorter length, extension into spare capacity, same-length alias; top level / under a field / as an element); oracle: Diff nil => stripped values equal, else Go merge.Merge and an independent implementation of the documented client format applied to StripKey(old) with the JSON-decoded delta give StripKey(new); Diff(x,x)=nil; arguments unmodified; delta JSON-stable. non-trivial = pairs with a non-empty delta"})
 }
